@@ -122,4 +122,8 @@ VARIANTS = [
      'edits': [('coupled_groups.py', "        # Swap interactions and re-calculate pKa values\n", "        self.parameters = group1.parameters\n        assert self.parameters is not None\n        # Swap interactions and re-calculate pKa values\n")]},
     {'name': 'second-assert-repeats-silent', 'expect': 'pass',
      'edits': [('coupled_groups.py', "        # Swap interactions and re-calculate pKa values\n", "        assert self.parameters is not None\n        # Swap interactions and re-calculate pKa values\n")]},
+    {'name': 'group-object-under-s-specification', 'rule': 'C12.R2',
+     'edits': [('group.py', "            _LOGGER.warning('{0:s}'.format(str(self)))", "            _LOGGER.warning('{0:s}'.format(self))")]},
+    {'name': 'atom-object-under-s-specification', 'rule': 'C12.R2',
+     'edits': [('energy.py', "            'Side chain interaction failed for {0:s} and {1:s}'.format(\n                group1.label, group2.label))", "            'Side chain interaction failed for {0:s} and {1:s}'.format(\n                group1.label, group2))")]},
 ]
